@@ -144,6 +144,15 @@ def regenerate(chk):
 
 
 def run(chk):
+    import logging
+    logging.disable(logging.WARNING)   # the readers warn about every reference whose last key type is not its Python type
+    try:
+        return _run(chk)
+    finally:
+        logging.disable(logging.NOTSET)
+
+
+def _run(chk):
     rng = chk.rng
     quick = chk.tier == "quick"
     n_obj, n_store = (260, 120) if quick else (3000, 1500)
